@@ -54,6 +54,13 @@ def cases(tier, rng, schema, feats):
             else:
                 out.append(f"C15.rtv.{n}\trtv\twebauthn::PublicKeyCredentialRpEntity\t{{icon=N;id=s6578616d706c652e636f6d;name=S(s{txt})}}")
             n += 1
+    # every text member of the entities starting with each prefix a helper might single out (URL schemes, markup, quoting, literals)
+    for pre in gen.TEXT_PREFIXES:
+        txt = (pre + "abc").encode().hex()
+        out.append(f"C15.rtv.{n}\trtv\twebauthn::PublicKeyCredentialUserEntity\t{{display_name=S(s{txt});icon=S(s{txt});id=b01;name=S(s{txt})}}")
+        n += 1
+        out.append(f"C15.rtv.{n}\trtv\twebauthn::PublicKeyCredentialRpEntity\t{{icon=N;id=s{txt};name=S(s{txt})}}")
+        n += 1
     gc = gen.Gen(schema, rng, tier, canonical=True)
     for t in ENCTY_TYPES + RESER_ONLY_TYPES:
         if t not in schema:
